@@ -160,7 +160,7 @@ Definition says_programmed (s : stat) : bool :=
 
 (* [prev_ready]: readyz before the batch; [prev_fail]: did an earlier batch fail; [last_fail]: did the
    most recent applying batch fail; [last_v]: greatest version seen so far *)
-Fixpoint oracle_handler (prev_ready prev_fail last_fail : bool) (last_v : Z) (l : list hobs) : bool :=
+Fixpoint oracle_handler (plus : bool) (prev_ready prev_fail last_fail : bool) (last_v : Z) (l : list hobs) : bool :=
   match l with
   | [] => true
   | h :: l' =>
@@ -205,8 +205,18 @@ Fixpoint oracle_handler (prev_ready prev_fail last_fail : bool) (last_v : Z) (l 
         (if hb_ready h && negb prev_ready
          then (applied h && negb failed) || (negb (applied h) && negb prev_fail)
          else true) in
-      if v_ok && surfaced && honest && latch
-      then oracle_handler (hb_ready h) (prev_fail || failed)
+      (* a batch that applies a configuration and reports Programmed has given exactly that version to NGINX: written to
+         disk and handed to Reload (with NGINX Plus an endpoints-only change may go through the API instead) *)
+      let loaded :=
+        if applied h && match hb_final h with Some sts => existsb says_programmed sts | None => false end &&
+           (negb plus || match b_change (hb_in h) with ClusterState => true | _ => false end)
+        then match hb_conf h, hb_written h, hb_reloaded h with
+             | Some c, Some w, Some r => (c =? w) && (c =? r)
+             | _, _, _ => false
+             end
+        else true in
+      if v_ok && surfaced && honest && latch && loaded
+      then oracle_handler plus (hb_ready h) (prev_fail || failed)
                           (if applied h then failed else last_fail) new_v l'
       else false
   end.
@@ -221,7 +231,7 @@ Definition check_case (c : case) : list nat :=
                 code_mismatch
       else [code_violation]
   | CHandler plus steps =>
-      if oracle_handler false false false 0 steps
+      if oracle_handler plus false false false 0 steps
       then when (negb (handler_model_ok plus hinit steps)) code_mismatch
       else [code_violation]
   end.
